@@ -1140,3 +1140,40 @@ Section ExportProofs.
     - intros d m b Hin. destruct (Hfrom d m b Hin) as [Hi _]. destruct (Hp m b Hi) as [Hh _]. exact Hh.
   Qed.
 End ExportProofs.
+
+(* ------------------------------------------------------------------ packaged statements pinned in Props/C20.v *)
+Lemma mem_get_refines H mx ops :
+  (forall h b, mem_get (fst (mem_run H (mem_new mx) ops)) h = Some b ->
+               H b = h /\ In b (flat_map (offered H) ops)) /\
+  (forall b, In b (flat_map (offered H) ops) ->
+             mem_get (fst (mem_run H (mem_new mx) ops)) (H b) = Some b \/ Collision H).
+Proof. split; [apply mem_get_sound | apply mem_get_complete]. Qed.
+
+Lemma disk_get_refines H ops : forallb is_api ops = true ->
+  (forall h b, disk_get H (fst (disk_run H (disk_open []) ops)) h = OBytes (Some b) ->
+               H b = h /\ In b (flat_map (offered H) ops)) /\
+  (forall b, In b (flat_map (offered H) ops) ->
+             disk_get H (fst (disk_run H (disk_open []) ops)) (H b) = OBytes (Some b) \/ Collision H).
+Proof. intros Hok. split; [intros h b; apply disk_get_sound, Hok | intros b; apply disk_get_complete, Hok]. Qed.
+
+Lemma cas_withheld_or_corrupt H mats segrefs retrefs cas r :
+  In r (segrefs ++ retrefs) ->
+  (find N.compare (cref_hash r) cas = None -> cas_check H mats segrefs retrefs cas <> CASOk) /\
+  (forall orig c, H orig = cref_hash r -> find N.compare (cref_hash r) cas = Some c -> c <> orig ->
+     cas_check H mats segrefs retrefs cas <> CASOk \/ Collision H).
+Proof.
+  intros Hin. split.
+  - apply cas_withheld_is_obstruction; exact Hin.
+  - intros orig c. apply cas_corrupt_is_obstruction; exact Hin.
+Qed.
+
+Lemma sc_withheld_or_corrupt H mats pays :
+  (forall m, In m mats -> mat_present m = true ->
+     (forall m' b, In (m', b) pays -> mat_digest m' <> mat_digest m) -> sc_check H mats pays <> SCOk) /\
+  (forall m c orig, In (m, c) pays -> H orig = mat_digest m -> c <> orig ->
+     sc_check H mats pays <> SCOk \/ Collision H).
+Proof.
+  split.
+  - intros m. apply sc_withheld_is_obstruction.
+  - intros m c orig. apply sc_corrupt_is_obstruction.
+Qed.
